@@ -159,7 +159,9 @@ class MSM(SklearnBaseEstimator):
                     return False
 
                 # identical shapes => use nnz for element-wise equality
-                if (self.tcounts_ != other.tcounts_).nnz != 0:
+                # (builders with prior counts return dense counts)
+                if (sparse.csr_matrix(self.tcounts_) !=
+                        sparse.csr_matrix(other.tcounts_)).nnz != 0:
                     return False
 
                 # imperfect serialization leads to diff in tprobs, use
@@ -217,7 +219,7 @@ class MSM(SklearnBaseEstimator):
         msm.tcounts_ = mmread(fname_dict['tcounts_'])
         msm.tprobs_ = mmread(fname_dict['tprobs_'])
         msm.mapping_ = TrimMapping.load(fname_dict['mapping_'])
-        msm.eq_probs_ = np.loadtxt(fname_dict['eq_probs_'])
+        msm.eq_probs_ = np.loadtxt(fname_dict['eq_probs_'], ndmin=1)
 
         return msm
 
@@ -278,7 +280,7 @@ class MSM(SklearnBaseEstimator):
                 pickle.dump(self.config, f)
 
             if force and os.path.isdir(path):
-                os.remove(path)
+                shutil.rmtree(path)
 
             if zipfile:
                 raise NotImplementedError("MSMs don't do zip archives yet.")
